@@ -2,6 +2,7 @@ from pulser.backend import EmulatorBackend, Results, BitStrings
 from emu_mps.mps_config import MPSConfig
 from emu_base import init_logging, PulserData, SequenceData
 from emu_mps.mps_backend_impl import create_impl, MPSBackendImpl
+from emu_mps.solver import Solver
 import pickle
 import os
 import time
@@ -61,6 +62,15 @@ class MPSBackend(EmulatorBackend):
         pulser_data = PulserData(
             sequence=self._sequence, config=self._config, dt=self._config.dt
         )
+        if (
+            self._config.solver == Solver.DMRG
+            and pulser_data.noise_model.noise_types != ()
+        ):
+            # also covers a noise model taken from the device
+            raise NotImplementedError(
+                "DMRG solver does not currently support noise types"
+                f"you are using: {pulser_data.noise_model.noise_types}"
+            )
         results = []
         for sequence_data in pulser_data.get_sequences():
             results.append(self._run_from_sequence_data(sequence_data, self._config))
